@@ -116,6 +116,168 @@ static json_object *twin(json_object *o)
 	default: return NULL;
 	}
 }
+/* a structurally equal value reached through a DIFFERENT HISTORY: strings created with other contents and then set
+ * (moved to a separate buffer, shrunk back, emptied and refilled), objects that once held many more members (table grown,
+ * tombstones left) or had members deleted and re-added, arrays that were longer / built by insert and put and then
+ * trimmed or shrunk, numbers and booleans reached by set / increment */
+static json_object *twin_h(json_object *o)
+{
+	if (!o)
+		return NULL;
+	switch (json_object_get_type(o))
+	{
+	case json_type_int:
+	{
+		int64_t s = json_object_get_int64(o);
+		uint64_t u = json_object_get_uint64(o);
+		json_object *n = json_object_new_int64((int64_t)vh_below(100) - 50);
+		if (s < 0 || u <= (uint64_t)INT64_MAX)
+		{
+			if (vh_below(2))
+				json_object_set_int64(n, s);
+			else
+			{
+				json_object_set_int64(n, s / 2);
+				json_object_int_inc(n, s - s / 2);
+			}
+		}
+		else if (vh_below(2))
+			json_object_set_uint64(n, u);
+		else
+		{
+			json_object_set_int64(n, INT64_MAX);
+			json_object_int_inc(n, (int64_t)(u - (uint64_t)INT64_MAX));
+		}
+		return n;
+	}
+	case json_type_double:
+	{
+		double d = json_object_get_double(o);
+		json_object *n = vh_below(2) ? json_object_new_double(7.25) : json_object_new_double_s(7.25, "7.250");
+		json_object_set_double(n, d);
+		return n;
+	}
+	case json_type_boolean:
+	{
+		json_object *n = json_object_new_boolean(!json_object_get_boolean(o));
+		json_object_set_boolean(n, json_object_get_boolean(o));
+		return n;
+	}
+	case json_type_string:
+	{
+		const char *t = json_object_get_string(o);
+		int len = json_object_get_string_len(o);
+		static const char fill[] = "a considerably longer string than anything the generator makes: it forces a separate buffer";
+		json_object *n;
+		switch (vh_below(4))
+		{
+		case 0: /* grown into a separate buffer */
+			n = json_object_new_string("");
+			json_object_set_string_len(n, fill, (int)sizeof fill - 1);
+			json_object_set_string_len(n, t, len);
+			break;
+		case 1: /* created long, shrunk in place */
+			n = json_object_new_string(fill);
+			json_object_set_string_len(n, t, len);
+			break;
+		case 2: /* grown, emptied, refilled */
+			n = json_object_new_string("x");
+			json_object_set_string_len(n, fill, 40);
+			json_object_set_string(n, "");
+			json_object_set_string_len(n, t, len);
+			break;
+		default: /* grown to exactly its final length from a shorter one */
+			n = json_object_new_string_len(t, len > 0 ? len - 1 : 0);
+			json_object_set_string_len(n, t, len);
+			break;
+		}
+		return n;
+	}
+	case json_type_array:
+	{
+		size_t len = json_object_array_length(o);
+		json_object *a = vh_below(2) ? json_object_new_array() : json_object_new_array_ext(1 + (int)vh_below(40));
+		uint32_t how = vh_below(4);
+		if (how == 0)
+		{
+			/* junk in front and behind, then trimmed */
+			int pre = (int)vh_below(4), post = (int)vh_below(40);
+			for (int i = 0; i < pre; i++)
+				json_object_array_add(a, json_object_new_int(i));
+			for (size_t i = 0; i < len; i++)
+				json_object_array_add(a, twin_h(json_object_array_get_idx(o, i)));
+			for (int i = 0; i < post; i++)
+				json_object_array_add(a, json_object_new_string("junk"));
+			if (post)
+				json_object_array_del_idx(a, (size_t)pre + len, (size_t)post);
+			if (pre)
+				json_object_array_del_idx(a, 0, (size_t)pre);
+		}
+		else if (how == 1)
+		{
+			/* built back to front by insertion at 0 */
+			for (size_t i = len; i > 0; i--)
+				json_object_array_insert_idx(a, 0, twin_h(json_object_array_get_idx(o, i - 1)));
+		}
+		else if (how == 2)
+		{
+			/* last element put first (gap of nulls), then the gap overwritten */
+			for (size_t i = len; i > 0; i--)
+				json_object_array_put_idx(a, i - 1, twin_h(json_object_array_get_idx(o, i - 1)));
+		}
+		else
+		{
+			for (size_t i = 0; i < len; i++)
+				json_object_array_add(a, twin_h(json_object_array_get_idx(o, i)));
+			json_object_array_shrink(a, (int)vh_below(3));
+		}
+		return a;
+	}
+	case json_type_object:
+	{
+		json_object *n = json_object_new_object();
+		const char *ks[64];
+		json_object *vs[64];
+		int c = 0;
+		json_object_object_foreach(o, k, v)
+		{
+			if (c < 64)
+			{
+				ks[c] = k;
+				vs[c] = v;
+				c++;
+			}
+		}
+		uint32_t how = vh_below(3);
+		int junk = how == 0 ? 12 + (int)vh_below(40) : (int)vh_below(4);
+		char jk[16];
+		/* junk members first (the table grows past its initial size when there are 12 or more), or interleaved */
+		for (int i = 0; i < junk; i++)
+		{
+			snprintf(jk, sizeof jk, "junk%d", i);
+			json_object_object_add(n, jk, json_object_new_int(i));
+			if (how == 2 && i < c)
+				json_object_object_add(n, ks[i], json_object_new_string("to be replaced"));
+		}
+		for (int i = 0; i < c; i++)
+			json_object_object_add(n, ks[(i + (int)how) % c], twin_h(vs[(i + (int)how) % c]));
+		for (int i = 0; i < junk; i++)
+		{
+			snprintf(jk, sizeof jk, "junk%d", i);
+			json_object_object_del(n, jk);
+		}
+		if (how == 1 && c > 0)
+		{
+			/* delete one real member and add it again */
+			json_object *keep = json_object_get(json_object_object_get(n, ks[0]));
+			json_object_object_del(n, ks[0]);
+			json_object_object_add(n, ks[0], keep);
+		}
+		return n;
+	}
+	default: return NULL;
+	}
+}
 /* change one thing somewhere inside o (o is a container or a mutable scalar); returns 1 if changed */
 static int mutate(json_object *o)
 {
@@ -265,6 +427,12 @@ static int drive(int start, int nexec)
 		if (t2 && mutate(t2))
 			ev_eq(a, t2);
 		ev_copy(a);
+		/* the same value reached through another history */
+		json_object *th = twin_h(a);
+		ev_eq(a, th);
+		ev_eq(th, t);
+		ev_copy(th);
+		json_object_put(th);
 		json_object *c = gen(2);
 		ev_copy(c);
 		json_object_put(a);
